@@ -685,7 +685,7 @@ def run(ctx):
     from vt.props import c18_conn
 
     bp = dict(base=300, ev_flags=(9, 10), alphabet=["sub", "timer", "drop", "bcast:+1", "bcast:same", "regular-adv", "use"], seed=ctx.seed)
-    bd = 6 if quick else 8
+    bd = 6 if quick else 7
     ctx.pmap(_work_bcast, [(bp, r, bd) for r in explore.roots(lambda: c18_conn.ConnH(bp), 2)])
     ctx.bounds.update(ble_broadcast_copies=dict(alphabet=bp["alphabet"], depth=bd))
     ctx.require(ctx.acc.symbols["bcast"] > 0, "a broadcast was never delivered")
@@ -702,7 +702,7 @@ def run(ctx):
         (dict(alphabet=["sub:B", "sub:C", "unsub:B", "drop", "offline", "online"], max_drops=2, refuse=[(1, 10)]), 4 if quick else 5),
     ]
     configs.append((dict(alphabet=ALPH_SELF, max_drops=1), 4 if quick else 5))
-    configs.append((dict(alphabet=ALPH_BIG, max_drops=2), 4 if quick else 5))
+    configs.append((dict(alphabet=ALPH_BIG, max_drops=2), 4))
     configs.append((dict(alphabet=["sub:A", "sub:B", "unsub:A", "close", "use", "drop", "ev1"], max_drops=1), 5 if quick else 6))
     work = []
     for p, d in configs:
